@@ -1184,6 +1184,16 @@ func (m *membershipAllower) membershipAllowedFromThirdPartyInvite() error {
 			m.targetID, m.newMember.ThirdPartyInvite.Signed.MXID,
 		)
 	}
+	// The sender of the invite must be the sender of the m.room.third_party_invite event.
+	thirdPartyInviteEvent, err := m.provider.ThirdPartyInvite(m.newMember.ThirdPartyInvite.Signed.Token)
+	if err != nil {
+		return err
+	}
+	if thirdPartyInviteEvent == nil || string(thirdPartyInviteEvent.SenderID()) != m.senderID {
+		return errorf(
+			"The invite sender %s doesn't match the sender of the third party invite event", m.senderID,
+		)
+	}
 	// Marshal the "signed" so it can be verified by VerifyJSON.
 	marshalledSigned, err := json.Marshal(m.newMember.ThirdPartyInvite.Signed)
 	if err != nil {
